@@ -74,6 +74,8 @@ def build_layouts(layouts, e):
         elif how == "nested":
             out.append(name_mapping(cls, map={f["n"]: ("outer", ...) if i % 2 else ("lst", i // 2)
                                                for i, f in enumerate(ms["fields"]) if f.get("d") is None}))
+        elif how == "nested_dict":
+            out.append(name_mapping(cls, map={f["n"]: ("outer", ...) for i, f in enumerate(ms["fields"]) if i % 2}))
         elif how == "forbid":
             from adaptix import ExtraForbid  # noqa: PLC0415
             out.append(name_mapping(cls, extra_in=ExtraForbid()))
@@ -86,9 +88,24 @@ def build_layouts(layouts, e):
 @st.composite
 def st_case(draw):
     near = draw(st.integers(0, 9)) < 6
+    near_layouts = {}
     if near:
         t = draw(GEN_NEAR.strategy())
-        datum, ops = draw(soup.st_near_valid(t))
+        ref_layouts = {}
+        for s_ in tspec.walk(t):
+            if s_[0] == "model" and draw(st.integers(0, 2)) == 0:
+                ms = s_[1]
+                how = draw(st.sampled_from(["as_list", "nested_dict", "forbid"]))
+                in_union = any(u[0] == "union" and any(tspec.strip(c) is s_ or tspec.strip(c) == s_ for c in u[1]) for u in tspec.walk(t))
+                if how == "as_list" and (any(f.get("d") is not None for f in ms["fields"]) or in_union or not ms["fields"]):
+                    how = "forbid"
+                near_layouts[ms["name"]] = how
+                if how == "as_list":
+                    ref_layouts[ms["name"]] = {"as_list": True}
+                elif how == "nested_dict":
+                    ref_layouts[ms["name"]] = {"paths": {f["n"]: (("outer", tspec.model_key(f["n"])) if i % 2 else
+                                                                  (tspec.model_key(f["n"]),)) for i, f in enumerate(ms["fields"])}}
+        datum, ops = draw(soup.st_near_valid(t, layouts=ref_layouts))
     else:
         t = draw(GEN.strategy())
         datum, ops = draw(soup.st_soup()), ["soup"]
@@ -98,8 +115,7 @@ def st_case(draw):
         if draw(st.integers(0, 3)) == 0:
             layouts[n] = draw(st.sampled_from(["as_list", "nested", "forbid"]))  # ExtraKwargs: documented TypeError zone
     return {"t": t, "datum": datum, "ops": ops, "strict": draw(st.booleans()), "debug": draw(st.integers(0, 2)),
-            "provs": provs if not near else [], "layouts": layouts if not near else
-            {k: v for k, v in layouts.items() if v in ("forbid",)}}
+            "provs": provs if not near else [], "layouts": layouts if not near else near_layouts}
 
 
 def datum_depth(v, d=0):
